@@ -18,7 +18,6 @@ Definition q_neg (so : bool) (z x : q_itv) := Interval.neg_assign QC so z x.
 Definition q_add (so : bool) (z x y : q_itv) := Interval.add_assign QC so z x y.
 Definition q_sub (so : bool) (z x y : q_itv) := Interval.sub_assign QC so z x y.
 Definition q_mul (so : bool) (z x y : q_itv) := Interval.mul_assign QC so z x y.
-Definition q_mul_fixed (so : bool) (z x y : q_itv) := Interval.mul_assign_fixed QC so z x y.
 Definition q_mul_diag (so : bool) (z x y : q_itv) := Interval.mul_diag QC so z x y.
 Definition q_div (so : bool) (z x y : q_itv) := Interval.div_assign QC so z x y.
 Definition q_join1 (so : bool) (z x : q_itv) := join_assign1 QC so z x.
